@@ -102,7 +102,12 @@ fn zone_workload(l: &mut Local, rng: &mut Rng, ctx: &Ctx) {
             }
             _ => rng.range(cal::min_unix() / 2, cal::max_unix() / 2),
         };
-        let ns = rng.below(1_000_000_000) as u32;
+        // whole seconds as well: a count that is an exact (negative) multiple of 1e9 is its own boundary case
+        let ns = match rng.below(4) {
+            0 => 0,
+            1 => *rng.pick(&[1u32, 999_999_999, 500_000_000]),
+            _ => rng.below(1_000_000_000) as u32,
+        };
         let a = match facade::dt_from_timespec(u, ns, t1) {
             Ok(a) => a,
             Err(_) => continue,
@@ -119,6 +124,16 @@ fn zone_workload(l: &mut Local, rng: &mut Rng, ctx: &Ctx) {
                 }
                 if total < 0 && ns != 0 {
                     l.class("zone_constructors_agree_on_negative_fractional_instants");
+                }
+                if total < 0 && ns == 0 {
+                    l.class("zone_constructors_agree_on_negative_whole_seconds");
+                }
+                // and the fixed-type flavour of the same constructor
+                if let Ok(c) = facade::dt_from_total_ns_and_local(total, *a.local_time_type()) {
+                    n += 1;
+                    if !crate::mon::c05::same_dt(&a, &c) {
+                        l.violation("zoned date-time: from_total_nanoseconds_and_local differs from from_timespec(.., zone) for the same instant and type", format!("total {} on {}", total, z1.describe()), facade::fmt_dt(&a), facade::fmt_dt(&c));
+                    }
                 }
             }
             Err(e) => l.violation("zoned date-time: from_total_nanoseconds(.., zone) refuses an instant from_timespec(.., zone) accepts", format!("total {} on {}", total, z1.describe()), facade::fmt_dt(&a), format!("Err({:?})", e)),
@@ -207,6 +222,7 @@ pub fn run(ctx: &Ctx) -> Report {
         "second_60_vs_neighbour_nanosecond",
         "second_60_search_entry_compared",
         "zone_constructors_agree_on_negative_fractional_instants",
+        "zone_constructors_agree_on_negative_whole_seconds",
         "search_at_range_end_found",
         "search_at_range_end_refused",
         "search_at_range_end_second_60",
